@@ -59,7 +59,7 @@ Lemma cfg_panic_free_parts cfg w r :
   panic_free (handler_of cfg r) = true.
 Proof.
   unfold cfg_has_panic. intros H.
-  apply orb_false_iff in H as [H Hh]. apply orb_false_iff in H as [H Hr]. apply orb_false_iff in H as [Hc Hs].
+  apply orb_false_iff in H as [H _]. apply orb_false_iff in H as [H Hh]. apply orb_false_iff in H as [H Hr]. apply orb_false_iff in H as [Hc Hs].
   split; [|split; [|split]].
   - now apply existsb_false_forallb.
   - unfold sfilters_of. destruct (assoc (s_root w) (d_sfilters cfg)) as [l|] eqn:E; [|reflexivity].
@@ -95,6 +95,12 @@ Theorem dispatch_events cfg req already s :
   exists s', dispatch O cfg req already s = Done s' /\ slog s' = slog s ++ expected_events O cfg req.
 Proof.
   intros Hpf Hnp. unfold dispatch, dispatch_body, expected_events, route_request in *.
+  assert (Hcp : cond_panic_hit O cfg req = false).
+  { unfold cfg_has_panic in Hpf. apply orb_false_iff in Hpf as [_ Hc]. unfold cond_panic_hit.
+    destruct (d_condpanic cfg); [|discriminate]. cbn [existsb andb].
+    destruct (str_eqb (hget req H_CondPanic) (L "1")); [|reflexivity]. cbn [andb].
+    induction (path_candidates O (d_table cfg) req) as [|x l IH]; [reflexivity|exact IH]. }
+  rewrite Hcp.
   destruct (select_route O (d_table cfg) req) as [[w r]|e].
   - destruct (cfg_panic_free_parts cfg w r Hpf) as (Hc & Hs & Hr & Hh).
     destruct (extract_parameters O (d_table cfg) w r (rq_path req)) as [ps|]; [|now contradiction Hnp].
@@ -147,7 +153,8 @@ Lemma dispatch_body_install cfg req already s :
      select_route O (d_table cfg) req = inl (w, r) /\ enabled_for cfg r = true /\
      book (state_of (dispatch_body O cfg req already s)) = (S (st_acq s), st_rel s, Some (c, false), st_recovered s)).
 Proof.
-  unfold dispatch_body. destruct (select_route O (d_table cfg) req) as [[w r]|e].
+  unfold dispatch_body. destruct (cond_panic_hit O cfg req); [now left|].
+  destruct (select_route O (d_table cfg) req) as [[w r]|e].
   - fold (enabled_for cfg r). destruct already.
     + left. destruct (extract_parameters O (d_table cfg) w r (rq_path req)); [|reflexivity].
       rewrite book_run_chain; [apply book_upd_attrs|].
